@@ -292,3 +292,29 @@ def h_loader(shape):
         prove(f["name"] == names[i], "L.name-recovered-exactly-even-when-it-contains-marker-text")
         prove(f["description"] == descs[i], "L.description-recovered-exactly")
         prove(f["enabled"] == enabled[i] and f["content"] is cmds[i], "L.order-content-and-enabled-status-recovered")
+
+
+def h_loader_requires(as_list):
+    """the require command of a parsed script is turned back into the set's requirements (quotes stripped, order kept, no
+    duplicates) and does not become a filter"""
+    cap = sym_str("capability")
+    assume(in_re(cap, re_no_quote_no_backslash()))
+    req = commands.get_command_instance("require")
+    if as_list:
+        req.arguments["capabilities"] = ['"fileinto"', '"' + cap + '"', '"fileinto"']
+    else:
+        req.arguments["capabilities"] = '"' + cap + '"'
+    src = factory.FiltersSet("source")
+    src.addfilter("f", [("Subject", ":is", "x")], [("keep",)])
+    cmd = src.filters[0]["content"]
+    cmd.hash_comments = []
+    fs = factory.FiltersSet("loaded")
+    fs.from_parser_result(ParsedStub([req, cmd]))
+    prove(len(fs.filters) == 1 and fs.filters[0]["content"] is cmd and fs.filters[0]["name"] == "Unnamed rule 1", "L.require-is-not-a-filter")
+    if as_list:
+        if cap == "fileinto":
+            prove(fs.requires == ["fileinto"], "L.requirements-recovered-without-duplicates")
+        else:
+            prove(len(fs.requires) == 2 and fs.requires[0] == "fileinto" and fs.requires[1] == cap, "L.requirements-recovered-without-duplicates")
+    else:
+        prove(len(fs.requires) == 1 and fs.requires[0] == cap, "L.requirements-recovered-without-duplicates")
